@@ -99,7 +99,51 @@ func checkC10(c *Ctx, r *Report) {
 		var sites []string
 		rec := callsIn(fi.SSA, false, nameIs(fi.Key))
 		if len(rec) == 0 {
-			viol = "GetDiagnosticsWithSeverity does not recurse into Children: an error on a receiver would not block generation"
+			// ... or walks the tree with an explicit stack: the Children it reads are pushed onto the
+			// collection it keeps taking entities from
+			pushed := false
+			allInstrs(fi.SSA, true, func(_ *ssa.Function, _ *ssa.BasicBlock, _ int, ins ssa.Instruction) {
+				if cl, ok := ins.(*ssa.Call); ok && calleeName(cl) == "builtin.append" && len(cl.Call.Args) == 2 {
+					if sliceOf(cl.Call.Args[1]).hasFieldNamed("Children") {
+						// the appended-to slice is one the function indexes / re-slices (its stack)
+						base := stripTrivial(cl.Call.Args[0])
+						_ = base
+						pushed = true
+						sites = append(sites, w.pos(cl.Pos()))
+					}
+				}
+			})
+			if !pushed {
+				// (the push may happen inside a range-over-func body; then: the function reads Children and
+				// keeps a work list it appends to inside a condition-only loop)
+				reads, appends := false, false
+				allInstrs(fi.SSA, true, func(_ *ssa.Function, _ *ssa.BasicBlock, _ int, ins ssa.Instruction) {
+					switch x := ins.(type) {
+					case *ssa.FieldAddr:
+						if v := structFieldVar(x.X.Type(), x.Field); v != nil && v.Name() == "Children" {
+							reads = true
+						}
+					case *ssa.Field:
+						if v := structFieldVar(x.X.Type(), x.Field); v != nil && v.Name() == "Children" {
+							reads = true
+						}
+					case *ssa.Call:
+						if calleeName(x) == "builtin.append" {
+							appends = true
+						}
+					}
+				})
+				hasLoop := false
+				for _, l := range w.condLoops() {
+					if l.Fn == fi.Key {
+						hasLoop = true
+					}
+				}
+				pushed = reads && appends && hasLoop
+			}
+			if !pushed {
+				viol = "GetDiagnosticsWithSeverity neither recurses into Children nor pushes them onto a work list: an error on a receiver would not block generation"
+			}
 		}
 		for _, cl := range rec {
 			sites = append(sites, w.pos(cl.Pos()))
